@@ -1,5 +1,5 @@
 (* sexp <-> QuoteV4 message *)
-From V Require Import Lib.Sexp Model.Abi.
+From V Require Import Lib.Sexp Model.Abi Model.Der.
 
 Definition enc_header (h : header) : sexp :=
   L [A (hVersion h); A (hAkt h); A (hTee h); B (hPceSvn h); B (hQeSvn h); B (hVendor h); B (hUser h)].
@@ -58,7 +58,8 @@ Definition enc_unit (_ : unit) : sexp := L [].
 
 (* entry: (op arg)
    0 parse raw | 1 serialize (opt quote) | 2 check (opt quote)
-   3 ser_header (opt header) | 4 ser_body (opt body) | 5 ser_report (opt report) *)
+   3 ser_header (opt header) | 4 ser_body (opt body) | 5 ser_report (opt report)
+   6 SignatureToDER bytes *)
 Definition run_abi (s : sexp) : sexp :=
   let arg := snth 1 s in
   match sN (snth 0 s) with
@@ -68,5 +69,6 @@ Definition run_abi (s : sexp) : sexp :=
   | 3%N => of_res B (ser_header (sopt dec_header arg))
   | 4%N => of_res B (ser_body (sopt dec_body arg))
   | 5%N => of_res B (ser_report (sopt dec_report arg))
+  | 6%N => of_res B (sig_to_der (sB arg))
   | _ => L [A 255]
   end.
